@@ -1,8 +1,8 @@
 use std::path::PathBuf;
 
-use bsv::evidence::Evidence;
-use bsv::registry;
-use bsv::runner::{self, RunConfig};
+mod registry;
+use bsv_core::evidence::Evidence;
+use bsv_core::runner::{self, RunConfig};
 use serde_json::json;
 
 fn usage() -> ! {
@@ -48,7 +48,7 @@ fn main() {
     // silence panic messages from expected panics inside cases
     if std::env::var("VERIF_DEBUG").is_ok() {
         std::panic::set_hook(Box::new(|i| {
-            if i.payload().downcast_ref::<bsv::runner::Marker>().is_none() {
+            if i.payload().downcast_ref::<bsv_core::runner::Marker>().is_none() {
                 eprintln!("panic: {i}");
             }
         }));
@@ -57,7 +57,7 @@ fn main() {
     }
 
     let crash_path = runner::replay_dir().join(format!("{prop}-{seed}-{profile}-crash.case"));
-    bsv::crash::install(&prop, crash_path.to_str().unwrap());
+    bsv_core::crash::install(&prop, crash_path.to_str().unwrap());
 
     if let Some(path) = replay {
         // the file name tells the stage: <prop>-<seed>-<profile>-s<stage>-<n>.case; try all stages otherwise
@@ -83,7 +83,7 @@ fn main() {
     }
 
     let thorough = tier == "thorough";
-    bsv::crash::watchdog(if thorough { spec.thorough_budget_s } else { spec.quick_budget_s });
+    bsv_core::crash::watchdog(if thorough { spec.thorough_budget_s } else { spec.quick_budget_s });
     let mut evaluations = 0u64;
     let mut distinct = 0u64;
     let mut ops_total = 0u64;
